@@ -241,7 +241,7 @@ def flowInput (ts : List String) : Option FlowCase :=
     if m == "eof" then some ⟨m, ⟨pre, []⟩⟩
     else if m == "err" || m == "close" then some ⟨m, ⟨pre ++ [{ data := [], err := some .fatal }], []⟩⟩
     else if m == "werr" then
-      some ⟨m, ⟨List.replicate k d, List.replicate (k - 1) ⟨c, false, false⟩ ++ [⟨0, true, false⟩]⟩⟩
+      some ⟨m, ⟨List.replicate k d, List.replicate (k - 1) { accept := c, err := false } ++ [{ accept := 0, err := true }]⟩⟩
     else if m == "ctx" then
       some ⟨m, ⟨pre ++ [{ d with cancelled := true }] ++
         List.replicate (Gen.cloudconst.ContextCheckInterval + 5) d, []⟩⟩
@@ -256,6 +256,98 @@ def flowParse (ts : List String) : Option FObs :=
   | ["del", a, "cnt", b, _, c, d, "upd", _, "leak", g] =>
     match natList [a, b, c, d, g] with
     | some [a, b, c, d, g] => some ⟨a, b, c, d, g⟩
+    | _ => none
+  | _ => none
+
+/-! ### tst -/
+
+/-- `closer@gate` tokens ↦ gate per closer (thread ids 1…k in case order). -/
+def tstInput (ts : List String) : Option (List Nat) :=
+  match natAfter "cl" ts with
+  | some k =>
+    let cl := ((after "cl" ts).drop 1).take k
+    if cl.length = k ∧ k ≥ 1 then
+      cl.mapM fun c => match c.splitOn "@" with
+        | [_, g] => g.toNat?
+        | _ => none
+    else none
+  | none => none
+
+/-- The forced schedule: closers of gate 0; Start parked before `manager.Ctx()`; closers of gate 1;
+Start's `manager.Ctx()`, `SetCtx`, CAS; closers of gate 2; Start's spawn; closers of gate 3. -/
+def tstSched (gates : List Nat) : Schedule :=
+  let ids : Nat → List Nat := fun g => ((List.range gates.length).filter fun i => gates[i]? == some g).map (· + 1)
+  let grp : Nat → List Nat := fun g => (List.replicate 8 (ids g)).flatten
+  grp 0 ++ grp 1 ++ [0, 0, 0] ++ grp 2 ++ [0] ++ grp 3
+
+def tstShow (o : UObs) : String :=
+  s!"state {o.state} closes {o.closes} start {if o.startOk then "ok" else "err"} live {o.live} ctx {if o.ctxDone then 1 else 0} isclosed {if o.isClosed then 1 else 0}"
+
+def tstParse (ts : List String) : Option UObs :=
+  match ts with
+  | ["state", a, "closes", b, "start", st, "live", c, "ctx", d, "isclosed", e] =>
+    match natList [a, b, c, d, e] with
+    | some [a, b, c, d, e] =>
+      if st == "ok" || st == "err" then some ⟨a, b, st == "ok", c, d == 1, e == 1⟩ else none
+    | _ => none
+  | _ => none
+
+/-! ### bg -/
+
+def bgInput (ts : List String) : Option (Bool × Nat) :=
+  match after "order" ts, natAfter "n" ts with
+  | o :: _, some n => if n ≥ 1 then some (o == "close", n) else none
+  | _, _ => none
+
+/-- Cleaner enters a tick and queues for the lock, the closers take the latch / queue for the lock,
+the reader unblocks; then `StopCleanup` first (`closeFirst`) or the tick body first. -/
+def bgSched (closeFirst : Bool) (n : Nat) : Schedule :=
+  let closers := (List.range n).map (· + 2)
+  [1, 1, 1] ++ closers ++ closers ++ [0] ++
+    (if closeFirst then closers ++ [1, 1, 1] else [1, 1, 1] ++ closers ++ [1])
+
+def bgShow (o : GObs) : String := s!"live {o.live} closed {if o.closed then 1 else 0}"
+
+def bgParse (ts : List String) : Option GObs :=
+  match ts with
+  | ["live", a, "closed", b] =>
+    match a.toNat?, b.toNat? with
+    | some a, some b => some ⟨a, b == 1⟩
+    | _, _ => none
+  | _ => none
+
+/-! ### bat -/
+
+/-- History tokens: `c` Close, `t`/`s` attach target/source, `ct`/`cs` Close ‖ attach, `cc` two
+Closes at once.  Returns the thread list and the schedule of everything before the last `c`. -/
+def batPlan (ms : Nat) : List String → List APc → Schedule → Option (List APc × Schedule)
+  | [], pcs, s => some (pcs, s)
+  | op :: rest, pcs, s =>
+    let k := pcs.length
+    if op == "c" then batPlan ms rest (pcs ++ [.a1]) (s ++ [k, k, k])
+    else if op == "t" then batPlan ms rest (pcs ++ [.attT]) (s ++ [k])
+    else if op == "s" then batPlan ms rest (pcs ++ [.attS]) (s ++ [k])
+    else if op == "cc" then batPlan ms rest (pcs ++ [.a1, .a1]) (s ++ (lcgSched (ms + k) 2 8).map (· + k) ++ [k, k, k, k + 1, k + 1, k + 1])
+    else if op == "ct" || op == "cs" then
+      batPlan ms rest (pcs ++ [.a1, if op == "ct" then .attT else .attS])
+        (s ++ (lcgSched (ms + k) 2 4).map (· + k) ++ [k, k, k, k + 1])
+    else none
+
+def batInput (ts : List String) : Option (List APc × Schedule) :=
+  match natAfter "h" ts, natAfter "ms" ts with
+  | some k, some ms =>
+    let ops := ((after "h" ts).drop 1).take k
+    if ops.length = k ∧ k ≥ 1 ∧ ops.getLast? == some "c" then batPlan ms ops.dropLast [] [] else none
+  | _, _ => none
+
+def batShow (o : AObs) : String :=
+  s!"satt {o.satt} stc {o.stc} tatt {o.tatt} ttc {o.ttc} lost {o.lostS} {o.lostT} open {o.open_}"
+
+def batParse (ts : List String) : Option AObs :=
+  match ts with
+  | ["satt", a, "stc", b, "tatt", c, "ttc", d, "lost", e, f, "open", g] =>
+    match natList [a, b, c, d, e, f, g] with
+    | some [a, b, c, d, e, f, g] => some ⟨a, b, c, d, e, f, g⟩
     | _ => none
   | _ => none
 
@@ -293,6 +385,18 @@ def runModel (ts : List String) : String :=
       let rep := flowReportOf st.counter (lcgSched ms 2 6)
       flowShow f.mode (fObsOf st rep) rep.updates
     | _, _ => "bad-case"
+  | "tst" :: _ =>
+    match tstInput ts with
+    | some gates => tstShow (uObs (uFinal .setCtxFirst gates.length (tstSched gates)))
+    | none => "bad-case"
+  | "bg" :: _ =>
+    match bgInput ts with
+    | some (cf, n) => bgShow (gObs (gFinal .keep 1 n (bgSched cf n)))
+    | none => "bad-case"
+  | "bat" :: _ =>
+    match batInput ts with
+    | some (pcs, s) => batShow (aObs (closeSeq false (run (aProg false) s (aInit pcs)).sh))
+    | none => "bad-case"
   | "mgr" :: _ =>
     -- two clean handlers: ResourceBase.onClose and the component's own onClose
     match mgrInput ts with
@@ -326,6 +430,18 @@ def runHolds (caseToks obsToks : List String) : String :=
   | "flow" :: _ =>
     match flowInput caseToks, flowParse obsToks with
     | some f, some o => holdsF (f.mode == "close") o
+    | _, _ => false
+  | "tst" :: _ =>
+    match tstInput caseToks, tstParse obsToks with
+    | some _, some o => holdsU o
+    | _, _ => false
+  | "bg" :: _ =>
+    match bgInput caseToks, bgParse obsToks with
+    | some _, some o => holdsG o
+    | _, _ => false
+  | "bat" :: _ =>
+    match batInput caseToks, batParse obsToks with
+    | some _, some o => holdsA o
     | _, _ => false
   | "mgr" :: _ =>
     match mgrInput caseToks, mgrParse obsToks with
